@@ -104,6 +104,13 @@ def run(chk, ctx):
                 got.append(('field', el[1], names))
             elif el[0] == 'bits':
                 got.append(('bits', el[1]))
+            elif el[0] == 'bits-guard':
+                got.append(('bits-guard', el[1]))
+                chk.ob('C04.M', q + ' bit values', False,
+                       'bit %d is set iff %s, not iff argument %s is true '
+                       '(the integers 0 / 1 are accepted bit values)' % (
+                           el[1][0][0], el[1][0][2], el[1][0][1]),
+                       site=site)
             else:
                 got.append(('other', T.show(el[1])[:80]))
         same = len(got) == len(ref)
@@ -284,6 +291,23 @@ def run(chk, ctx):
             chk.ob('C04.T', cons, okk, why,
                    site='pamqp/encode.py::field_table')
     tables.check_tag_encoders(chk, ctx, 'C04.X')
+    # which tag an integer gets is part of the bytes: the reference encoder
+    # takes the first fitting type of the documented order
+    from .c11 import first_fit
+    from ..isets import ISet
+    lad = tables.ladder_arms(ctx, False)
+    for pr in lad['problems']:
+        chk.undecide('C04.X', 'integer tags', pr)
+    want, _rej = first_fit(spec, spec.tables['integer_ladder'])
+    got = {}
+    for s_, arm in lad['arms']:
+        tg = arm.tag.decode('latin-1')
+        got[tg] = got.get(tg, ISet.empty()).union(s_)
+    for t, mine, _rng in want:
+        g = got.get(t, ISet.empty())
+        chk.ob('C04.X', 'integer tag %r' % t, g == mine,
+               'integers emitted with tag %r: %r' % (t, g),
+               detail={'reference': repr(mine)}, site='pamqp/encode.py')
     tables.check_table_entry_order(chk, ctx, 'C04.T')
     chk.floor('C04.X', 8 + 10, 'primitive encoders')
     chk.units['classes'] = n
